@@ -4,9 +4,9 @@ CONSTANTS
   Null = "0"
   Kinds <- K2
   BatchSize = 2
-  MaxBlocks = 5
-  MaxXfers = 6
-  MaxPerBlock = 3
+  MaxBlocks = 3
+  MaxXfers = 4
+  MaxPerBlock = 2
   Replica <- R2
   DiskBackend <- R1
   GCReplica <- R2
